@@ -41,7 +41,9 @@ def describe(tier):
         'compute_file_checksum': 'symbolic size and chunk size with size <= '
         '%d x chunk size (at most that many non-empty reads); the '
         'concatenation of the hasher updates is structurally the whole '
-        'content' % (8 if tier == 'quick' else 16),
+        'content; the file stub offers read() and readinto() (mutable '
+        'buffer model: prefix replaced, stale tail kept)' %
+        (8 if tier == 'quick' else 16),
         'write_to_tempfile': 'call protocol against recording stubs (with / '
         'without directory, write failing or not)',
         'outside': 'the real filesystem, mkstemp uniqueness, hashlib '
